@@ -21,7 +21,7 @@ var universe = []struct {
 }{
 	{"root.txt", "root"},
 	{"empty", ""},
-	{"bin.dat", "\x00\x01\xff\xfe\x00binary\x00"},
+	{"bin.dat", bigBinary()},
 	{"d/f.txt", "in d"},
 	{"d/e/f.txt", "deep"},
 	{"name with space.txt", "space"},
@@ -29,6 +29,21 @@ var universe = []struct {
 	{"d/ünï-世界.txt", "unicode"},
 	{".hidden", "hidden"},
 	{"d/x.skip", "filtered"},
+}
+
+// bigBinary: 70001 bytes (more than one 32 KiB inflate window, more than one 64 KiB buffer) of binary content that does
+// not compress to nothing
+func bigBinary() string {
+	b := make([]byte, 70001)
+	x := uint32(12345)
+	for i := range b {
+		x = x*1664525 + 1013904223
+		b[i] = byte(x >> 24)
+		if i%7 == 0 {
+			b[i] = 0
+		}
+	}
+	return string(b)
 }
 
 type filter struct {
@@ -262,7 +277,9 @@ func main() {
 	// ---- part 2: confinement for arbitrary archives
 	names := []string{"a", "d/a", "../a", "../../a", "d/../../a", "/abs", "..", "./a", "d/", "d", "a/b", `..\a`, "d/../e/../../x",
 		// siblings whose names start with the destination's own name ("dest"): a string-prefix test is not a path-prefix test
-		"../dest2/a", "../dest-backup/a", "../destx", "d/../../dest.old/a"}
+		"../dest2/a", "../dest-backup/a", "../destx", "d/../../dest.old/a",
+		// rooted AND climbing
+		"/../a", "/d/../../a"}
 	maxEntries := 2
 	if run.Thorough() {
 		maxEntries = 3
@@ -358,6 +375,6 @@ func main() {
 	run.Assume = []string{"runs on a real scratch directory created with mktemp and removed afterwards; symlinks inside archives are not generated (archive/zip entries are written as regular files)"}
 	run.Finish(ev.Coverage{
 		"evaluations": evals, "distinct_nontrivial": nontriv, "samples": samples.List, "exhaustive": true, "archives": archNo, "roundtrip_cases": caseNo,
-		"rule": "round trip: subsets of a 10-path universe (root file, empty file, binary content, d/f, d/e/f, names with space/dots/unicode/leading dot, a *.skip file; plus an empty directory) x 5 filters x recursive flag, ZipFolder -> UnzipToFolder -> extracted tree must equal exactly the selected files byte for byte (thorough: all 1024 subsets); the cases re-use three destination paths that are wiped in between; confinement: every archive of <= 2 (thorough 3) distinct entries from 17 adversarial names ('..' segments, absolute path, '..', './a', directory entry, file/dir clashes, backslash), snapshot (path, hash) of the scratch tree three levels above the destination before/after: only paths under the destination may differ whatever UnzipToFolder returns. non-trivial = round trips selecting >= 1 file, archives with a '..' entry",
+		"rule": "round trip: subsets of a 10-path universe (root file, empty file, 70001 bytes of binary content, d/f, d/e/f, names with space/dots/unicode/leading dot, a *.skip file; plus an empty directory) x 5 filters x recursive flag, ZipFolder -> UnzipToFolder -> extracted tree must equal exactly the selected files byte for byte (thorough: all 1024 subsets); the cases re-use three destination paths that are wiped in between; confinement: every archive of <= 2 (thorough 3) distinct entries from 19 adversarial names ('..' segments, absolute path, rooted and climbing, '..', './a', directory entry, file/dir clashes, backslash), snapshot (path, hash) of the scratch tree three levels above the destination before/after: only paths under the destination may differ whatever UnzipToFolder returns. non-trivial = round trips selecting >= 1 file, archives with a '..' entry",
 	})
 }
